@@ -26,12 +26,15 @@ Definition m_transpose_sl (c : schunk) : res lsarr :=
   match sfields c with
   | [] => Err                                             (* array.field(0) raises *)
   | f0 :: _ =>
-      (* every value buffer is cut at the last offset of the first field's window *)
-      let e := last (offs (farr f0)) 0 in
-      Ok {| ls_offs := offs (farr f0);
-            ls_valid := repeat true (length (offs (farr f0)) - 1);   (* no mask passed *)
+      (* offsets relative to the first one; of every field the window of its own value buffer *)
+      let o := rebase (offs (farr f0)) in
+      let e := last o 0 in
+      Ok {| ls_offs := o;
+            ls_valid := repeat true (length o - 1);   (* no mask passed *)
             ls_svalid := repeat true e;
-            ls_children := map (fun f => (fname f, fty f, firstn e (child (farr f)))) (sc_flatten c) |}
+            ls_children := map (fun f => (fname f, fty f,
+                                          firstn e (skipn (hd 0 (offs (farr f))) (child (farr f)))))
+                               (sc_flatten c) |}
   end.
 
 (* python view of a list-struct array: per row, optional, per field the values of the row *)
@@ -89,7 +92,7 @@ Definition m_flat_length (p : chunked) : res nat := res_map sum (m_list_lengths 
 
 Definition m_list_offsets (p : chunked) : res (list nat) :=
   match chunks p with
-  | [c] => match sfields c with f0 :: _ => Ok (offs (farr f0)) | [] => Err end
+  | [c] => match sfields c with f0 :: _ => Ok (rebase (offs (farr f0))) | [] => Err end
   | _ => res_map (cumsum_from 0) (m_list_lengths p)
   end.
 
